@@ -112,7 +112,8 @@ def load(docs, path: int, split: int):
 
         import yaml
 
-        d = tempfile.mkdtemp(prefix="verif_c09_")
+        os.makedirs("/verif/evidence/work", exist_ok=True)
+        d = tempfile.mkdtemp(prefix="c09_", dir="/verif/evidence/work")
         try:
             files = []
             for nm, part in (("a.yml", docs[:split]), ("b.yml", docs[split:])):
